@@ -1,4 +1,5 @@
 import ConjureVerif.Model.Dec
+import ConjureVerif.Model.Hex
 import ConjureVerif.Gen.SafeLong
 /-
 Model of conjure-object's `SafeLong` (safe_long.rs).  The bounds, the acceptance condition of
@@ -60,20 +61,7 @@ def showOpt : Option Int → String
   | some v => s!"ok {v}"
   | none => "err"
 
-def hexVal (c : Char) : Option Nat :=
-  if '0' ≤ c ∧ c ≤ '9' then some (c.toNat - 48)
-  else if 'a' ≤ c ∧ c ≤ 'f' then some (c.toNat - 87)
-  else none
-
-/-- hex text of a byte string; the empty string is written `_` -/
-def unhex : List Char → Option (List Nat)
-  | [] => some []
-  | ['_'] => some []
-  | a :: b :: rest =>
-    match hexVal a, hexVal b, unhex rest with
-    | some x, some y, some r => some ((x * 16 + y) :: r)
-    | _, _, _ => none
-  | _ => none
+def unhex (cs : List Char) : Option (List Nat) := Hex.unhexL cs
 
 def handle : List String → String
   | ["new", n] => match n.toInt? with
